@@ -7,9 +7,12 @@ import Proofs.InterpWF
   (`newInst`, `deleteInst`, `relate`, `unrelate`, `setAttr`; `relate … using` / `unrelate … using` are two of them).
 
   Part 1 is the preservation proof of `Proofs/InterpWF.lean` once more, for an ARBITRARY reflexive-transitive relation
-  `P` on states that the state operations respect (`StateOps C P`): then every evaluation, every statement and every
-  whole run respects `P` — whatever the nesting, the calls, the fuel.
-  Part 2 instantiates `P` with "reachable by a history of successful state operations" (`Reach C`).
+  `P` on states that the state operations respect (`StateOps C N P`; attribute writes only for the attribute names `N`
+  allows): then every evaluation, every ALLOWED statement (`Ok`, a predicate closed under sub-statements whose
+  attribute assignments name `N`-attributes only — `OkClosed`) and every whole run respects `P` — whatever the nesting,
+  the calls, the fuel.
+  Part 2 instantiates `P` with "reachable by a history of successful state operations" (`Reach C`, every statement
+  allowed) and with "… whose attribute writes name `N`-attributes only" (`ReachN C N`, the statements `StmtOk N`).
 -/
 set_option linter.unusedSectionVars false
 set_option linter.unusedVariables false
@@ -17,20 +20,39 @@ namespace Pyx.Interp
 open M
 
 /-- a relation on relational states that is reflexive, transitive and respected by every state operation of `Spec` -/
-structure StateOps (C : Ctx) (P : State → State → Prop) : Prop where
+structure StateOps (C : Ctx) (N : String → Prop) (P : State → State → Prop) : Prop where
   refl : ∀ st, P st st
   trans : ∀ a b c, P a b → P b c → P a c
   newInst : ∀ {cls st i st'}, newInst C cls st = .ok (i, st') → P st st'
   deleteInst : ∀ {i st st'}, deleteInst i st = .ok st' → P st st'
   relate : ∀ {x y rel phrase st st'}, relate C x y rel phrase st = .ok st' → P st st'
   unrelate : ∀ {x y rel phrase st st'}, unrelate C x y rel phrase st = .ok st' → P st st'
-  setAttr : ∀ {i name v st st'}, setAttr C i name v st = .ok st' → P st st'
+  setAttr : ∀ {i name v st st'}, N name → setAttr C i name v st = .ok st' → P st st'
+
+/-- which statements are allowed: closed under sub-statements; an attribute assignment names an attribute `N` allows -/
+structure OkClosed (N : String → Prop) (Ok : Stmt → Prop) : Prop where
+  assignField : ∀ {h name e}, Ok (.assignField h name e) → N name
+  ifThen : ∀ {c thn elifs els}, Ok (.ifS c thn elifs els) → ∀ s ∈ thn, Ok s
+  ifElif : ∀ {c thn elifs els}, Ok (.ifS c thn elifs els) → ∀ p ∈ elifs, ∀ s ∈ p.2, Ok s
+  ifElse : ∀ {c thn elifs b}, Ok (.ifS c thn elifs (some b)) → ∀ s ∈ b, Ok s
+  whileB : ∀ {c body}, Ok (.whileS c body) → ∀ s ∈ body, Ok s
+  forB : ∀ {v setv body}, Ok (.forEach v setv body) → ∀ s ∈ body, Ok s
+
+theorem mem_of_findCallable {C : Ctx} {p : Callable → Bool} {f : Callable} (h : findCallable C p = some f) :
+    f ∈ C.callables := List.mem_of_find?_eq_some h
+
+theorem mem_of_resolveNs {C : Ctx} {ns name : String} {f : Callable} (h : resolveNs C ns name = some f) :
+    f ∈ C.callables := by
+  unfold resolveNs at h
+  split at h
+  · rename_i g hg; cases h; exact mem_of_findCallable hg
+  · exact mem_of_findCallable h
 
 /-- `P` lifted to configurations (the frame is free) -/
 def RS (P : State → State → Prop) (c c' : Cfg) : Prop := P c.st c'.st
 
 section
-variable {C : Ctx} {P : State → State → Prop} (H : StateOps C P)
+variable {C : Ctx} {N : String → Prop} {P : State → State → Prop} (H : StateOps C N P)
 include H
 
 theorem rs_po : PreOrder (RS P) := ⟨fun c => H.refl c.st, fun a b c h1 h2 => H.trans _ _ _ h1 h2⟩
@@ -97,41 +119,45 @@ theorem NN {α : Type} {m : M α} (h : Neutral m) : Pres (RS P) m := pres_of_neu
 
 
 section
-variable {r : Oracle} (he : ∀ e, Pres (RS P) (r.eval e)) (hs : ∀ s, Pres (RS P) (r.exec s))
-include he hs
+variable {Ok : Stmt → Prop} (K : OkClosed N Ok) (COk : ∀ f ∈ C.callables, ∀ s ∈ f.body, Ok s)
+variable {r : Oracle} (he : ∀ e, Pres (RS P) (r.eval e)) (hs : ∀ s, Ok s → Pres (RS P) (r.exec s))
+include K COk he hs
 
-theorem rs_execList : ∀ l, Pres (RS P) (execList r l)
-  | [] => NN H (neutral_pure _)
-  | s :: rest => by
+theorem rs_execList : ∀ l, (∀ s ∈ l, Ok s) → Pres (RS P) (execList r l)
+  | [], _ => NN H (neutral_pure _)
+  | s :: rest, hl => by
     unfold execList
-    apply pres_bind (rs_po H) (hs s); intro o
-    cases o <;> first | exact rs_execList rest | exact NN H (neutral_pure _)
+    apply pres_bind (rs_po H) (hs s (hl s List.mem_cons_self)); intro o
+    cases o <;> first
+      | exact rs_execList rest (fun s' h' => hl s' (List.mem_cons_of_mem _ h'))
+      | exact NN H (neutral_pure _)
 
-theorem rs_execBlock (b : Block) : Pres (RS P) (execBlock r b) := by
+theorem rs_execBlock (b : Block) (hb : ∀ s ∈ b, Ok s) : Pres (RS P) (execBlock r b) := by
   unfold execBlock
   apply pres_bind (rs_po H) (rs_pushBlock H); intro _
-  apply pres_bind (rs_po H) (rs_execList H he hs b); intro _
+  apply pres_bind (rs_po H) (rs_execList H K COk he hs b hb); intro _
   apply pres_bind (rs_po H) (rs_popBlock H); intro _
   exact NN H (neutral_pure _)
 
-theorem rs_execElifs : ∀ l els, Pres (RS P) (execElifs r l els)
-  | [], none => NN H (neutral_pure _)
-  | [], some b => rs_execBlock H he hs b
-  | (c, b) :: rest, els => by
+theorem rs_execElifs : ∀ l els, (∀ p ∈ l, ∀ s ∈ p.2, Ok s) → (∀ b, els = some b → ∀ s ∈ b, Ok s) →
+    Pres (RS P) (execElifs r l els)
+  | [], none, _, _ => NN H (neutral_pure _)
+  | [], some b, _, he' => rs_execBlock H K COk he hs b (he' b rfl)
+  | (c, b) :: rest, els, hl, he' => by
     unfold execElifs
     apply pres_bind (rs_po H) (he c); intro v
     apply pres_bind (rs_po H) (NN H (neutral_asBool v)); intro t
     cases t
-    · exact rs_execElifs rest els
-    · exact rs_execBlock H he hs b
+    · exact rs_execElifs rest els (fun p hp => hl p (List.mem_cons_of_mem _ hp)) he'
+    · exact rs_execBlock H K COk he hs b (hl (c, b) List.mem_cons_self)
 
-theorem rs_forItems (v : String) (body : Block) : ∀ l, Pres (RS P) (forItems r v body l)
+theorem rs_forItems (v : String) (body : Block) (hb : ∀ s ∈ body, Ok s) : ∀ l, Pres (RS P) (forItems r v body l)
   | [] => NN H (neutral_pure _)
   | i :: rest => by
     unfold forItems
     apply pres_bind (rs_po H) ((rs_install H) _ _); intro _
-    apply pres_bind (rs_po H) (rs_execBlock H he hs body); intro o
-    cases o <;> first | exact rs_forItems v body rest | exact NN H (neutral_pure _)
+    apply pres_bind (rs_po H) (rs_execBlock H K COk he hs body hb); intro o
+    cases o <;> first | exact rs_forItems v body hb rest | exact NN H (neutral_pure _)
 
 theorem rs_evalWhere (wh : Expr) (c : Inst) : Pres (RS P) (evalWhere r wh c) := by
   unfold evalWhere
@@ -145,7 +171,7 @@ theorem rs_filterAll (wh : Expr) : ∀ l, Pres (RS P) (filterAll r wh l)
   | [] => NN H (neutral_pure _)
   | c :: rest => by
     unfold filterAll
-    apply pres_bind (rs_po H) (rs_evalWhere H he hs wh c); intro t
+    apply pres_bind (rs_po H) (rs_evalWhere H K COk he hs wh c); intro t
     apply pres_bind (rs_po H) (rs_filterAll wh rest); intro _
     exact NN H (neutral_pure _)
 
@@ -153,7 +179,7 @@ theorem rs_filterFirst (wh : Expr) : ∀ l, Pres (RS P) (filterFirst r wh l)
   | [] => NN H (neutral_pure _)
   | c :: rest => by
     unfold filterFirst
-    apply pres_bind (rs_po H) (rs_evalWhere H he hs wh c); intro t
+    apply pres_bind (rs_po H) (rs_evalWhere H K COk he hs wh c); intro t
     cases t
     · exact rs_filterFirst wh rest
     · exact NN H (neutral_pure _)
@@ -163,9 +189,9 @@ theorem rs_selectResult (many : Bool) (cands : List Inst) (wh : Option Expr) :
   unfold selectResult
   cases many <;> cases wh <;> simp only
   · exact NN H (neutral_pure _)
-  · apply pres_bind (rs_po H) (rs_filterFirst H he hs _ _); intro _; exact NN H (neutral_pure _)
+  · apply pres_bind (rs_po H) (rs_filterFirst H K COk he hs _ _); intro _; exact NN H (neutral_pure _)
   · exact NN H (neutral_pure _)
-  · apply pres_bind (rs_po H) (rs_filterAll H he hs _ _); intro _; exact NN H (neutral_pure _)
+  · apply pres_bind (rs_po H) (rs_filterAll H K COk he hs _ _); intro _; exact NN H (neutral_pure _)
 
 theorem rs_evalArgs : ∀ l, Pres (RS P) (evalArgs r l)
   | [] => NN H (neutral_pure _)
@@ -175,12 +201,12 @@ theorem rs_evalArgs : ∀ l, Pres (RS P) (evalArgs r l)
     apply pres_bind (rs_po H) (rs_evalArgs rest); intro _
     exact NN H (neutral_pure _)
 
-theorem rs_runBody (body : Block) : Pres (RS P) (runBody r body) := by
+theorem rs_runBody (body : Block) (hb : ∀ s ∈ body, Ok s) : Pres (RS P) (runBody r body) := by
   unfold runBody
-  apply pres_bind (rs_po H) (rs_execBlock H he hs body); intro o
+  apply pres_bind (rs_po H) (rs_execBlock H K COk he hs body hb); intro o
   cases o <;> first | exact NN H (neutral_pure _) | exact NN H (neutral_fail _)
 
-theorem rs_invoke (kind : WalkerKind) (body : Block) (kw : List (String × Val)) (self : Val) :
+theorem rs_invoke (kind : WalkerKind) (body : Block) (kw : List (String × Val)) (self : Val) (hbody : ∀ s ∈ body, Ok s) :
     Pres (RS P) (invoke r kind body kw self) := by
   intro c a c' h
   show P c.st c'.st
@@ -191,7 +217,7 @@ theorem rs_invoke (kind : WalkerKind) (body : Block) (kw : List (String × Val))
   · rename_i u c1 hb
     simp at h
     rw [← h.2]
-    exact rs_runBody H he hs body { fr := mkFrame kind kw self, st := c.st } u c1 hb
+    exact rs_runBody H K COk he hs body hbody { fr := mkFrame kind kw self, st := c.st } u c1 hb
 
 theorem rs_readField (i : Inst) (name : String) : Pres (RS P) (readField C r i name) := by
   unfold readField
@@ -199,18 +225,19 @@ theorem rs_readField (i : Inst) (name : String) : Pres (RS P) (readField C r i n
   cases regHit fr i name
   · simp only [Bool.false_eq_true, if_false]
     split
-    · exact rs_invoke H he hs _ _ _ _
+    · rename_i f hf
+      exact rs_invoke H K COk he hs _ _ _ _ (COk f (mem_of_findCallable hf))
     · exact NN H (neutral_querySt _)
   · exact NN H (neutral_pure _)
 
-theorem rs_writeField (i : Inst) (name : String) (v : Val) : Pres (RS P) (writeField C i name v) := by
+theorem rs_writeField (i : Inst) (name : String) (v : Val) (hN : N name) : Pres (RS P) (writeField C i name v) := by
   unfold writeField
   apply pres_bind (rs_po H) (NN H neutral_getFr); intro fr
   cases regHit fr i name
   · simp only [Bool.false_eq_true, if_false]
     split
     · exact NN H (neutral_fail _)
-    · exact (rs_modifySt H) (fun _ _ h => H.setAttr h)
+    · exact (rs_modifySt H) (fun _ _ h => H.setAttr hN h)
   · exact (rs_of_frameOnly H) (frameOnly_setRet _)
 
 theorem rs_evalStep (e : Expr) : Pres (RS P) (evalStep C r e) := by
@@ -234,7 +261,7 @@ theorem rs_evalStep (e : Expr) : Pres (RS P) (evalStep C r e) := by
     unfold evalStep
     apply pres_bind (rs_po H) (he hx); intro v
     apply pres_bind (rs_po H) (NN H (neutral_asInst v)); intro _
-    exact rs_readField H he hs _ _
+    exact rs_readField H K COk he hs _ _
   | bin op l rr =>
     unfold evalStep
     apply pres_bind (rs_po H) (he l); intro _
@@ -251,38 +278,43 @@ theorem rs_evalStep (e : Expr) : Pres (RS P) (evalStep C r e) := by
     · exact NN H (neutral_fail _)
   | call k name args =>
     unfold evalStep
-    apply pres_bind (rs_po H) (rs_evalArgs H he hs args); intro kw
+    apply pres_bind (rs_po H) (rs_evalArgs H K COk he hs args); intro kw
     cases k with
     | function =>
       simp only
       split
-      · exact rs_invoke H he hs _ _ _ _
+      · rename_i f hf
+        exact rs_invoke H K COk he hs _ _ _ _ (COk f (mem_of_findCallable hf))
       · exact NN H (neutral_fail _)
     | implicit ns =>
       simp only
       split
-      · split <;> exact rs_invoke H he hs _ _ _ _
+      · rename_i f hf
+        split <;> exact rs_invoke H K COk he hs _ _ _ _ (COk f (mem_of_resolveNs hf))
       · exact NN H (neutral_fail _)
     | classOp ns =>
       simp only
       split
-      · split <;> exact rs_invoke H he hs _ _ _ _
+      · rename_i f hf
+        split <;> exact rs_invoke H K COk he hs _ _ _ _ (COk f (mem_of_resolveNs hf))
       · exact NN H (neutral_fail _)
     | bridge ns =>
       simp only
       split
-      · split <;> exact rs_invoke H he hs _ _ _ _
+      · rename_i f hf
+        split <;> exact rs_invoke H K COk he hs _ _ _ _ (COk f (mem_of_resolveNs hf))
       · exact NN H (neutral_fail _)
   | callInst hx name args =>
     unfold evalStep
     apply pres_bind (rs_po H) (he hx); intro v
     apply pres_bind (rs_po H) (NN H (neutral_asInst v)); intro i
     split
-    · apply pres_bind (rs_po H) (rs_evalArgs H he hs args); intro _
-      exact rs_invoke H he hs _ _ _ _
+    · rename_i f hf
+      apply pres_bind (rs_po H) (rs_evalArgs H K COk he hs args); intro _
+      exact rs_invoke H K COk he hs _ _ _ _ (COk f (mem_of_findCallable hf))
     · exact NN H (neutral_fail _)
 
-theorem rs_execStep (s : Stmt) : Pres (RS P) (execStep C r s) := by
+theorem rs_execStep (s : Stmt) (hok : Ok s) : Pres (RS P) (execStep C r s) := by
   cases s with
   | assignVar x e =>
     unfold execStep
@@ -294,15 +326,15 @@ theorem rs_execStep (s : Stmt) : Pres (RS P) (execStep C r s) := by
     apply pres_bind (rs_po H) (he e); intro _
     apply pres_bind (rs_po H) (he hx); intro v
     apply pres_bind (rs_po H) (NN H (neutral_asInst v)); intro _
-    apply pres_bind (rs_po H) (rs_writeField H he hs _ _ _); intro _
+    apply pres_bind (rs_po H) (rs_writeField H K COk he hs _ _ _ (K.assignField hok)); intro _
     exact NN H (neutral_pure _)
   | ifS c thn elifs els =>
     unfold execStep
     apply pres_bind (rs_po H) (he c); intro v
     apply pres_bind (rs_po H) (NN H (neutral_asBool v)); intro t
     cases t
-    · exact rs_execElifs H he hs _ _
-    · exact rs_execBlock H he hs _
+    · exact rs_execElifs H K COk he hs _ _ (K.ifElif hok) (fun b hb => by subst hb; exact K.ifElse hok)
+    · exact rs_execBlock H K COk he hs _ (K.ifThen hok)
   | whileS c body =>
     unfold execStep
     apply pres_bind (rs_po H) (he c); intro v
@@ -310,12 +342,12 @@ theorem rs_execStep (s : Stmt) : Pres (RS P) (execStep C r s) := by
     cases t
     · exact NN H (neutral_pure _)
     · simp only [if_true]
-      apply pres_bind (rs_po H) (rs_execBlock H he hs body); intro o
-      cases o <;> first | exact hs _ | exact NN H (neutral_pure _)
+      apply pres_bind (rs_po H) (rs_execBlock H K COk he hs body (K.whileB hok)); intro o
+      cases o <;> first | exact hs _ hok | exact NN H (neutral_pure _)
   | forEach v setv body =>
     unfold execStep
     apply pres_bind (rs_po H) (NN H (neutral_lookupVar C _)); intro s
-    cases s <;> first | exact rs_forItems H he hs _ _ _ | exact NN H (neutral_fail _)
+    cases s <;> first | exact rs_forItems H K COk he hs _ _ (K.forB hok) _ | exact NN H (neutral_fail _)
   | brk => exact NN H (neutral_pure _)
   | cont => exact NN H (neutral_pure _)
   | stop => exact NN H (neutral_pure _)
@@ -382,7 +414,7 @@ theorem rs_execStep (s : Stmt) : Pres (RS P) (execStep C r s) := by
   | selectFrom many v cls wh =>
     unfold execStep
     apply pres_bind (rs_po H) (NN H (neutral_querySt _)); intro _
-    apply pres_bind (rs_po H) (rs_selectResult H he hs _ _ _); intro _
+    apply pres_bind (rs_po H) (rs_selectResult H K COk he hs _ _ _); intro _
     apply pres_bind (rs_po H) ((rs_install H) _ _); intro _
     exact NN H (neutral_pure _)
   | selectRelated many v hx chain wh =>
@@ -390,7 +422,7 @@ theorem rs_execStep (s : Stmt) : Pres (RS P) (execStep C r s) := by
     apply pres_bind (rs_po H) (he hx); intro hv
     apply pres_bind (rs_po H) (NN H (neutral_startOf hv)); intro _
     apply pres_bind (rs_po H) (NN H (neutral_querySt _)); intro _
-    apply pres_bind (rs_po H) (rs_selectResult H he hs _ _ _); intro _
+    apply pres_bind (rs_po H) (rs_selectResult H K COk he hs _ _ _); intro _
     apply pres_bind (rs_po H) ((rs_install H) _ _); intro _
     exact NN H (neutral_pure _)
   | invoke e =>
@@ -400,14 +432,18 @@ theorem rs_execStep (s : Stmt) : Pres (RS P) (execStep C r s) := by
 
 end
 
-theorem rs_run : ∀ n, (∀ e, Pres (RS P) ((run C n).eval e)) ∧ (∀ s, Pres (RS P) ((run C n).exec s))
-  | 0 => ⟨fun _ _ _ _ h => by simp [run] at h, fun _ _ _ _ h => by simp [run] at h⟩
+section
+variable {Ok : Stmt → Prop} (K : OkClosed N Ok) (COk : ∀ f ∈ C.callables, ∀ s ∈ f.body, Ok s)
+include K COk
+
+theorem rs_run : ∀ n, (∀ e, Pres (RS P) ((run C n).eval e)) ∧ (∀ s, Ok s → Pres (RS P) ((run C n).exec s))
+  | 0 => ⟨fun _ _ _ _ h => by simp [run] at h, fun _ _ _ _ _ h => by simp [run] at h⟩
   | n + 1 =>
     have ih := rs_run n
-    ⟨fun e => rs_evalStep H ih.1 ih.2 e, fun s => rs_execStep H ih.1 ih.2 s⟩
+    ⟨fun e => rs_evalStep H K COk ih.1 ih.2 e, fun s hok => rs_execStep H K COk ih.1 ih.2 s hok⟩
 
 /-- a whole run relates its initial to its final state -/
-theorem runFunction_rs (fuel : Nat) (body : Block) (kw : List (String × Val)) (st st' : State) (v : Val)
+theorem runFunction_rs (fuel : Nat) (body : Block) (hbody : ∀ s ∈ body, Ok s) (kw : List (String × Val)) (st st' : State) (v : Val)
     (h : runFunction C fuel body kw st = some (.ok (v, st'))) : P st st' := by
   unfold runFunction at h
   split at h
@@ -416,8 +452,10 @@ theorem runFunction_rs (fuel : Nat) (body : Block) (kw : List (String × Val)) (
   · rename_i u c hb
     simp at h
     rw [← h.2]
-    have ih := rs_run H fuel
-    exact rs_runBody H ih.1 ih.2 body _ _ _ hb
+    have ih := rs_run H K COk fuel
+    exact rs_runBody H K COk ih.1 ih.2 body hbody _ _ _ hb
+
+end
 
 end
 
@@ -461,29 +499,105 @@ theorem applyEffs_append (C : Ctx) : ∀ (es1 es2 : List Eff) (st st1 st2 : Stat
 theorem reach_one {C : Ctx} {e : Eff} {st st' : State} (h : applyEff C e st = .ok st') : Reach C st st' :=
   ⟨[e], by simp [applyEffs, h]⟩
 
-theorem reach_ops (C : Ctx) : StateOps C (Reach C) where
+theorem reach_ops (C : Ctx) : StateOps C (fun _ => True) (Reach C) where
   refl := fun st => ⟨[], rfl⟩
   trans := fun a b c ⟨e1, h1⟩ ⟨e2, h2⟩ => ⟨e1 ++ e2, applyEffs_append C e1 e2 a b c h1 h2⟩
   newInst := fun {cls st i st'} h => reach_one (e := .new cls) (by simp [applyEff, h])
   deleteInst := fun {i st st'} h => reach_one (e := .delete i) h
   relate := fun {x y rel phrase st st'} h => reach_one (e := .relate x y rel phrase) h
   unrelate := fun {x y rel phrase st st'} h => reach_one (e := .unrelate x y rel phrase) h
-  setAttr := fun {i name v st st'} h => reach_one (e := .set i name v) h
+  setAttr := fun {i name v st st'} _ h => reach_one (e := .set i name v) h
+
+/-- every statement is allowed -/
+theorem okTrue : OkClosed (fun _ => True) (fun _ => True) :=
+  ⟨fun _ => trivial, fun _ _ _ => trivial, fun _ _ _ _ _ => trivial, fun _ _ _ => trivial, fun _ _ _ => trivial,
+   fun _ _ _ => trivial⟩
+
+theorem reach_run (C : Ctx) (n : Nat) :
+    (∀ e, Pres (RS (Reach C)) ((run C n).eval e)) ∧ (∀ s, Pres (RS (Reach C)) ((run C n).exec s)) :=
+  ⟨(rs_run (reach_ops C) okTrue (fun _ _ _ _ => trivial) n).1,
+   fun s => (rs_run (reach_ops C) okTrue (fun _ _ _ _ => trivial) n).2 s trivial⟩
 
 /-- **whatever a program does to the relational state is a history of state operations**: a run (any nesting, calls,
     loops, any fuel) that ends normally reaches its final state from the initial one through a finite list of
     successful `create` / `delete` / `relate` / `unrelate` / attribute-write operations on named instances -/
 theorem runFunction_effects (C : Ctx) (fuel : Nat) (body : Block) (kw : List (String × Val)) (st st' : State) (v : Val)
     (h : runFunction C fuel body kw st = some (.ok (v, st'))) : ∃ es, applyEffs C es st = .ok st' :=
-  runFunction_rs (reach_ops C) fuel body kw st st' v h
+  runFunction_rs (reach_ops C) okTrue (fun _ _ _ _ => trivial) fuel body (fun _ _ => trivial) kw st st' v h
 
 /-- the same for a single statement and a single expression -/
 theorem exec_effects (C : Ctx) (n : Nat) (s : Stmt) (c c' : Cfg) (o : Out)
     (h : (run C n).exec s c = some (.ok (o, c'))) : ∃ es, applyEffs C es c.st = .ok c'.st :=
-  (rs_run (reach_ops C) n).2 s c o c' h
+  (reach_run C n).2 s c o c' h
 
 theorem eval_effects (C : Ctx) (n : Nat) (e : Expr) (c c' : Cfg) (v : Val)
     (h : (run C n).eval e c = some (.ok (v, c'))) : ∃ es, applyEffs C es c.st = .ok c'.st :=
-  (rs_run (reach_ops C) n).1 e c v c' h
+  (reach_run C n).1 e c v c' h
+
+/-! ### histories whose attribute writes name allowed attributes only -/
+
+/-- the statements whose attribute assignments (at any depth) name an attribute `N` allows -/
+inductive StmtOk (N : String → Prop) : Stmt → Prop
+  | assignVar (x e) : StmtOk N (.assignVar x e)
+  | assignField (h name e) : N name → StmtOk N (.assignField h name e)
+  | ifS (c thn elifs els) : (∀ s ∈ thn, StmtOk N s) → (∀ p ∈ elifs, ∀ s ∈ p.2, StmtOk N s) →
+      (∀ b, els = some b → ∀ s ∈ b, StmtOk N s) → StmtOk N (.ifS c thn elifs els)
+  | whileS (c body) : (∀ s ∈ body, StmtOk N s) → StmtOk N (.whileS c body)
+  | forEach (v setv body) : (∀ s ∈ body, StmtOk N s) → StmtOk N (.forEach v setv body)
+  | brk : StmtOk N .brk
+  | cont : StmtOk N .cont
+  | stop : StmtOk N .stop
+  | ret (e) : StmtOk N (.ret e)
+  | create (v cls) : StmtOk N (.create v cls)
+  | delete (v) : StmtOk N (.delete v)
+  | relate (a b rel phrase) : StmtOk N (.relate a b rel phrase)
+  | relateUsing (a b rel phrase u) : StmtOk N (.relateUsing a b rel phrase u)
+  | unrelate (a b rel phrase) : StmtOk N (.unrelate a b rel phrase)
+  | unrelateUsing (a b rel phrase u) : StmtOk N (.unrelateUsing a b rel phrase u)
+  | selectFrom (many v cls wh) : StmtOk N (.selectFrom many v cls wh)
+  | selectRelated (many v hx chain wh) : StmtOk N (.selectRelated many v hx chain wh)
+  | invoke (e) : StmtOk N (.invoke e)
+
+theorem stmtOk_closed (N : String → Prop) : OkClosed N (StmtOk N) where
+  assignField := fun h => by cases h; assumption
+  ifThen := fun h => by cases h; assumption
+  ifElif := fun h => by cases h; assumption
+  ifElse := fun h => by cases h with | ifS _ _ _ _ _ _ he => exact he _ rfl
+  whileB := fun h => by cases h; assumption
+  forB := fun h => by cases h; assumption
+
+/-- the attribute writes of a history name allowed attributes only -/
+def SetsOnly (N : String → Prop) : Eff → Prop
+  | .set _ name _ => N name
+  | _ => True
+
+def ReachN (C : Ctx) (N : String → Prop) (st st' : State) : Prop :=
+  ∃ es, (∀ e ∈ es, SetsOnly N e) ∧ applyEffs C es st = .ok st'
+
+theorem reachN_one {C : Ctx} {N : String → Prop} {e : Eff} {st st' : State} (hN : SetsOnly N e)
+    (h : applyEff C e st = .ok st') : ReachN C N st st' :=
+  ⟨[e], fun e' he' => by simp at he'; subst he'; exact hN, by simp [applyEffs, h]⟩
+
+theorem reachN_ops (C : Ctx) (N : String → Prop) : StateOps C N (ReachN C N) where
+  refl := fun st => ⟨[], fun _ h => (by cases h), rfl⟩
+  trans := fun a b c ⟨e1, n1, h1⟩ ⟨e2, n2, h2⟩ =>
+    ⟨e1 ++ e2, fun e he => by
+        rcases List.mem_append.1 he with h | h
+        · exact n1 e h
+        · exact n2 e h,
+      applyEffs_append C e1 e2 a b c h1 h2⟩
+  newInst := fun {cls st i st'} h => reachN_one (e := .new cls) trivial (by simp [applyEff, h])
+  deleteInst := fun {i st st'} h => reachN_one (e := .delete i) trivial h
+  relate := fun {x y rel phrase st st'} h => reachN_one (e := .relate x y rel phrase) trivial h
+  unrelate := fun {x y rel phrase st st'} h => reachN_one (e := .unrelate x y rel phrase) trivial h
+  setAttr := fun {i name v st st'} hN h => reachN_one (e := .set i name v) hN h
+
+/-- **the history of a program whose attribute assignments name `N`-attributes only** (its own statements and the
+    bodies of the callables of the context, at any depth) **writes `N`-attributes only** -/
+theorem runFunction_effectsN (C : Ctx) (N : String → Prop) (hC : ∀ f ∈ C.callables, ∀ s ∈ f.body, StmtOk N s)
+    (fuel : Nat) (body : Block) (hbody : ∀ s ∈ body, StmtOk N s) (kw : List (String × Val)) (st st' : State) (v : Val)
+    (h : runFunction C fuel body kw st = some (.ok (v, st'))) :
+    ∃ es, (∀ e ∈ es, SetsOnly N e) ∧ applyEffs C es st = .ok st' :=
+  runFunction_rs (reachN_ops C N) (stmtOk_closed N) hC fuel body hbody kw st st' v h
 
 end Pyx.Interp
